@@ -541,9 +541,125 @@ func saslScenario(p profile) *Scenario {
 	}
 }
 
+// lowScenario: the broker advertises, for APIs whose version the Conn negotiates, a highest version BELOW the lowest one the
+// Conn implements (Produce < 2, Fetch < 2, Metadata < 1, JoinGroup < 1), or does not advertise the API at all.  The operations
+// must fail on the client side ("no matching versions were found"): any frame of such an API would carry a version above the
+// advertised range, which WireConnCheck flags (version-above-advertised).  The other operations of the scenario still work.
+func lowScenario(name string, vs map[int16]int16) *Scenario {
+	return &Scenario{
+		Name:     "low-" + name,
+		Versions: vs,
+		Run: func(e *env) {
+			for _, cfg := range []kafka.ConnConfig{{ClientID: "old-broker", Topic: "t", Partition: 0}, {ClientID: "", Topic: longTopic, Partition: 1}} {
+				conn := e.conn("b1:9092", cfg)
+				if conn == nil {
+					continue
+				}
+				step := func(what string, f func() error) {
+					e.do(what, func() error { conn.SetDeadline(time.Now().Add(opTimeout)); return f() })
+				}
+				step("ApiVersions", func() error { _, err := conn.ApiVersions(); return err })
+				step("WriteMessages", func() error { _, err := conn.WriteMessages(kafka.Message{Value: []byte("v"), Time: at(0)}); return err })
+				step("WriteCompressedMessages", func() error {
+					_, err := conn.WriteCompressedMessages(compress.Gzip.Codec(), kafka.Message{Key: []byte("k"), Value: []byte("v")})
+					return err
+				})
+				step("ReadPartitions", func() error { _, err := conn.ReadPartitions("t"); return err })
+				step("ReadPartitions()", func() error { _, err := conn.ReadPartitions(); return err })
+				step("ReadBatch", func() error {
+					if _, err := conn.Seek(0, kafka.SeekAbsolute|kafka.SeekDontCheck); err != nil {
+						return err
+					}
+					b := conn.ReadBatch(1, 1<<16)
+					b.ReadMessage()
+					return b.Close()
+				})
+				step("ReadMessage", func() error { _, err := conn.ReadMessage(1 << 16); return err })
+				step("ReadLastOffset", func() error { _, err := conn.ReadLastOffset(); return err })
+				conn.Close()
+			}
+			// a consumer group member: FindCoordinator, then JoinGroup at the negotiated version (and Metadata as the leader)
+			d := &kafka.Dialer{DialFunc: e.dialFunc("old-member"), ClientID: "old-member", Timeout: opTimeout}
+			cg, err := kafka.NewConsumerGroup(kafka.ConsumerGroupConfig{
+				ID: "g-old", Brokers: []string{"b1:9092"}, Dialer: d, Topics: []string{"t"},
+				HeartbeatInterval: 30 * ms, JoinGroupBackoff: 300 * ms, SessionTimeout: 8 * time.Second, RebalanceTimeout: 2 * time.Second,
+				StartOffset: kafka.FirstOffset, Timeout: opTimeout, Logger: nolog{}, ErrorLogger: nolog{},
+			})
+			if err != nil {
+				e.errf("NewConsumerGroup: %v", err)
+				return
+			}
+			ctx, cancel := context.WithTimeout(context.Background(), 1200*ms)
+			e.do("Next", func() error { _, err := cg.Next(ctx); return err })
+			cancel()
+			e.do("Close", cg.Close)
+			// DialLeader looks the partition up with Metadata
+			e.do("DialLeader", func() error {
+				ctx, cancel := context.WithTimeout(context.Background(), 1500*ms)
+				defer cancel()
+				c, err := d.DialLeader(ctx, "tcp", "b1:9092", "t", 1)
+				if c != nil {
+					c.Close()
+				}
+				return err
+			})
+		},
+	}
+}
+
+// probeScenario (only with -probe, not part of the check): the versions the Conn does NOT negotiate.  ListOffsets v1, Metadata v1
+// (Brokers / Controller), OffsetCommit v2, OffsetFetch v1 are hard-coded, and an API that is not advertised is treated as
+// advertised with range 0..0 (so CreateTopics / DeleteTopics / SaslHandshake v0 are sent to a broker that does not list them).
+func probeScenario(group bool) *Scenario {
+	name, vs := "probe-hardcoded", map[int16]int16{fakekafka.ListOffsets: 0, fakekafka.Metadata: 0, fakekafka.CreateTopics: -1, fakekafka.DeleteTopics: -1}
+	if group {
+		name, vs = "probe-hardcoded-group", map[int16]int16{fakekafka.OffsetCommit: 1, fakekafka.OffsetFetch: 0, fakekafka.FindCoordinator: -1,
+			fakekafka.SyncGroup: -1, fakekafka.Heartbeat: -1, fakekafka.LeaveGroup: -1}
+	}
+	return &Scenario{
+		Name:     name,
+		Versions: vs,
+		Run: func(e *env) {
+			conn := e.conn("b1:9092", kafka.ConnConfig{ClientID: "probe", Topic: "t", Partition: 0})
+			if conn == nil {
+				return
+			}
+			e.do("ReadLastOffset", func() error { _, err := conn.ReadLastOffset(); return err })
+			e.do("Brokers", func() error { _, err := conn.Brokers(); return err })
+			e.do("Controller", func() error { _, err := conn.Controller(); return err })
+			e.do("CreateTopics", func() error {
+				return conn.CreateTopics(kafka.TopicConfig{Topic: "x", NumPartitions: 1, ReplicationFactor: 1})
+			})
+			e.do("DeleteTopics", func() error { return conn.DeleteTopics("topic6") })
+			conn.Close()
+			d := &kafka.Dialer{DialFunc: e.dialFunc("probe-member"), ClientID: "probe-member", Timeout: opTimeout}
+			cg, err := kafka.NewConsumerGroup(kafka.ConsumerGroupConfig{
+				ID: "g-probe", Brokers: []string{"b1:9092"}, Dialer: d, Topics: []string{"t"},
+				HeartbeatInterval: 30 * ms, JoinGroupBackoff: 300 * ms, SessionTimeout: 8 * time.Second, RebalanceTimeout: 2 * time.Second,
+				StartOffset: kafka.FirstOffset, Timeout: opTimeout, Logger: nolog{}, ErrorLogger: nolog{},
+			})
+			if err != nil {
+				e.errf("NewConsumerGroup: %v", err)
+				return
+			}
+			ctx, cancel := context.WithTimeout(context.Background(), 3*time.Second)
+			var gen *kafka.Generation
+			e.do("Next", func() error { var err error; gen, err = cg.Next(ctx); return err })
+			cancel()
+			if gen != nil {
+				e.do("CommitOffsets", func() error { return gen.CommitOffsets(map[string]map[int]int64{"t": {0: 1}}) })
+			}
+			e.do("Close", cg.Close)
+		},
+	}
+}
+
 // Scenarios is the list for a tier.
-func Scenarios(tier string) []*Scenario {
+func Scenarios(tier string, probe bool) []*Scenario {
 	var out []*Scenario
+	if probe {
+		out = append(out, probeScenario(false), probeScenario(true))
+	}
 	for _, v := range []int{2, 3, 7} {
 		for _, c := range codecs {
 			out = append(out, produceScenario(v, c, tier))
@@ -562,5 +678,22 @@ func Scenarios(tier string) []*Scenario {
 	for _, p := range profiles[:3] {
 		out = append(out, saslScenario(p))
 	}
+	// advertised maxima below the lowest version the Conn implements, one API at a time, all at once, and not advertised at all
+	P, F, M, J := int16(fakekafka.Produce), int16(fakekafka.Fetch), int16(fakekafka.Metadata), int16(fakekafka.JoinGroup)
+	out = append(out,
+		lowScenario("produce-1", map[int16]int16{P: 1}),
+		lowScenario("produce-0", map[int16]int16{P: 0}),
+		lowScenario("fetch-1", map[int16]int16{F: 1}),
+		lowScenario("fetch-0", map[int16]int16{F: 0}),
+		lowScenario("metadata-0", map[int16]int16{M: 0}),
+		lowScenario("joingroup-0", map[int16]int16{J: 0}),
+		lowScenario("all", map[int16]int16{P: 1, F: 1, M: 0, J: 0}),
+		lowScenario("kafka-0.10.0", map[int16]int16{P: 2, F: 2, M: 1, J: 0, fakekafka.OffsetCommit: 2, fakekafka.OffsetFetch: 1}),
+		lowScenario("absent-produce", map[int16]int16{P: -1}),
+		lowScenario("absent-fetch", map[int16]int16{F: -1}),
+		lowScenario("absent-metadata", map[int16]int16{M: -1}),
+		lowScenario("absent-joingroup", map[int16]int16{J: -1}),
+		lowScenario("absent-all", map[int16]int16{P: -1, F: -1, M: -1, J: -1}),
+	)
 	return out
 }
